@@ -1097,6 +1097,17 @@ func (f *Frame) runDeferred(d deferEntry, st *State) {
 	f.inDeferred = true
 	defer func() { f.inDeferred = false }()
 	c := d.call
+	// a directly deferred call (not a closure) is a call site of its own when it runs
+	if _, isClosure := c.Value.(*ssa.MakeClosure); !isClosure && f.hasSites() {
+		extra := map[string]Value{}
+		for i, a := range d.args {
+			if i < len(c.Args) {
+				a.Ty = c.Args[i].Type()
+			}
+			extra[fmt.Sprintf("arg%d", i)] = a
+		}
+		f.siteHook("call", d.instr, sub, extra)
+	}
 	if c.IsInvoke() {
 		f.invoke(d.instr, c, d.args, sub)
 	} else {
@@ -1148,7 +1159,7 @@ func (f *Frame) recvOp(x *ssa.UnOp, st *State) Value {
 	ct := x.X.Type().Underlying().(*types.Chan)
 	v := u.sc.fresh("recv", u.te.sortOf(ct.Elem()))
 	u.assume(st.reach, u.wf(v, ct.Elem(), st.wm))
-	f.siteHook("recv", x, st, map[string]Value{"chan": f.val(x.X)})
+	f.siteHook("recv", x, st, map[string]Value{"chan": f.val(x.X), "value": {T: v, Ty: ct.Elem()}})
 	if x.CommaOk {
 		return Value{Tuple: []Value{{T: v, Ty: ct.Elem()}, {T: u.sc.fresh("recvok", SBool), Ty: types.Typ[types.Bool]}}, Ty: x.Type()}
 	}
